@@ -3727,12 +3727,12 @@ class Client:
                     if m.qos == 0:
                         m.state = mqtt_ms_publish
                     elif m.qos == 1:
-                        # self._inflight_messages = self._inflight_messages + 1
+                        self._inflight_messages = self._inflight_messages + 1
                         if m.state == mqtt_ms_wait_for_puback:
                             m.dup = True
                         m.state = mqtt_ms_publish
                     elif m.qos == 2:
-                        # self._inflight_messages = self._inflight_messages + 1
+                        self._inflight_messages = self._inflight_messages + 1
                         if self._check_clean_session():
                             if m.state not in (mqtt_ms_publish, mqtt_ms_queued):
                                 m.dup = True
@@ -3979,7 +3979,6 @@ class Client:
                             return rc
                     elif m.qos == 1:
                         if m.state == mqtt_ms_publish:
-                            self._inflight_messages += 1
                             m.state = mqtt_ms_wait_for_puback
                             with self._in_callback_mutex:  # Don't call loop_write after _send_publish()
                                 rc = self._send_publish(
@@ -3995,7 +3994,6 @@ class Client:
                                 return rc
                     elif m.qos == 2:
                         if m.state == mqtt_ms_publish:
-                            self._inflight_messages += 1
                             m.state = mqtt_ms_wait_for_pubrec
                             with self._in_callback_mutex:  # Don't call loop_write after _send_publish()
                                 rc = self._send_publish(
@@ -4010,7 +4008,6 @@ class Client:
                             if rc != MQTTErrorCode.MQTT_ERR_SUCCESS:
                                 return rc
                         elif m.state == mqtt_ms_resend_pubrel:
-                            self._inflight_messages += 1
                             m.state = mqtt_ms_wait_for_pubcomp
                             with self._in_callback_mutex:  # Don't call loop_write after _send_publish()
                                 rc = self._send_pubrel(m.mid)
